@@ -46,8 +46,13 @@ def _all_cases(seed: int, tier: str) -> List[dict]:
         for (model, target), status in sorted(table.items()):
             if status == "raises":
                 continue
+            # every pair runs with valid snippets (generation is reached) ...
             cases.append({"model": model, "target": target,
-                          "snippets": SNIPPET_VARIANTS[rng.randrange(len(SNIPPET_VARIANTS))]})
+                          "snippets": rng.choice(["min", "min", "extra_valid"])})
+            # ... and a third of them additionally with invalid ones (error reports)
+            if rng.random() < 0.33:
+                cases.append({"model": model, "target": target,
+                              "snippets": rng.choice(["invalid2", "invalid3", "invalid_siblings"])})
         rng.shuffle(cases)
         _CASES[key] = cases
     return _CASES[key]
